@@ -31,6 +31,7 @@ RULE = ("every public operation (all iterator tools and aggregations via seeded 
         "26 tools over all-synchronous inputs of 5000..150000 items must not suspend either; a fresh interpreter importing and using the library must have no running/current "
         "asyncio loop. one evaluation = one driven run; non-trivial = run with >= 1 suspension (or an all-sync run); "
         "distinct = (scenario or spec, suspensions, poke position)")
+RULE += (' Also: catalogue scenarios with every protocol slot filled by a restart-sensitive non-coroutine awaitable, and a contextmanager-made context left by GeneratorExit whose clean-up suspends; future-like source flavour.')
 ASSUMPTIONS = ["a loop that checks identity of every token and reply is at least as strict as any real event loop",
                "C functions called from asyncstdlib code are visible to sys.monitoring CALL events"]
 EXHAUSTIVE = {"quick": False, "thorough": False}
